@@ -11,7 +11,7 @@
 From Asimap Require Import Base.Res.
 Open Scope Z_scope.
 
-Definition str := list Z.
+Notation str := (list Z) (only parsing).
 
 Definition SLASH : Z := 47.
 Definition DOT : Z := 46.
@@ -27,10 +27,10 @@ Fixpoint str_eqb (a b : str) : bool :=
   end.
 
 (* s.startswith(p) *)
-Fixpoint startswith (s p : str) : bool :=
+Fixpoint startswith (s p : str) {struct p} : bool :=
   match p, s with
   | [], _ => true
-  | x :: p', y :: s' => (x =? y) && startswith s' p'
+  | x :: p', y :: s' => (y =? x) && startswith s' p'
   | _ :: _, [] => false
   end.
 
@@ -167,9 +167,10 @@ Inductive cmd :=
 
 (* _mbox_pattern_to_re: strip one leading "/" of the pattern, normpath it when not empty, then the
    three validator calls; LIST/LSUB then only select database rows by a regex: no path is derived *)
+Definition list_pattern (pat : str) : str :=
+  match strip1 pat with [] => [] | p => normpath p end.
 Definition list_paths (ref pat : str) : res (list str) :=
-  let p := strip1 pat in
-  let p := match p with [] => p | _ => normpath p end in
+  let p := list_pattern pat in
   bind (canonical_mbox_name ref) (fun _ =>
   bind (canonical_mbox_name p) (fun _ =>
   bind (canonical_mbox_name (ref ++ p)) (fun _ => Ok []))).
@@ -203,11 +204,12 @@ Definition cmd_paths (root : str) (c : cmd) : res (list str) :=
   | CList r p | CLsub r p => list_paths r p
   end.
 
-(* the mailbox-name arguments of a command, as the handler receives them *)
+(* the names a command hands to the validator: its mailbox-name arguments as the handler receives
+   them; for LIST/LSUB the reference, the normalised pattern and their concatenation *)
 Definition cmd_names (c : cmd) : list str :=
   match c with
   | CSelect n | CExamine n | CSubscribe n | CUnsubscribe n | CStatus n
   | CAppend n | CCopy n | CMove n | CCreate n | CDelete n => [n]
   | CRename o n => [o; n]
-  | CList r p | CLsub r p => [r]      (* the pattern is normalised first: see list_paths *)
+  | CList r p | CLsub r p => [r; list_pattern p; r ++ list_pattern p]
   end.
